@@ -225,9 +225,9 @@ theorem dec_roundtrip : ∀ (t : FTy) (v : Derive.Val), accepted t = true → ha
       rw [Dec.bind_run, Dec.bind_run, array_enc 2 _ (by decide)]
       simp only [beq_self_eq_true, if_true, Dec.pure_run]
       rw [Dec.bind_run, intAcc_u32 _ _ hidx]
-      simpa using hrow
+      simp only [Int.toNat_natCast, Dec.bind_run, hrow, wrapperEnd, Bool.false_eq_true, if_false, Dec.pure_run, Nat.zero_add]
     · simp only [if_true, List.nil_append, Dec.bind_run, Dec.pure_run, intAcc_u32 _ _ hidx]
-      simpa using hrow
+      simp only [Int.toNat_natCast, hrow, wrapperEnd, Bool.false_eq_true, if_false, Dec.pure_run, Nat.zero_add]
 termination_by structural t => t
 theorem fields_roundtrip : ∀ (fs : Fields) (vs : List Derive.Val), acceptedFields fs = true → hasFields fs vs = true →
     noClashFields fs vs = true → FieldsRT fs vs
@@ -451,25 +451,29 @@ theorem derive_unknown_variant (a : EAttr) (vars : Variants) (i : Nat) (rest : B
   cases hix : a.indexOnly
   · simp only [Bool.false_eq_true, if_false, Dec.bind_run, Dec.pure_run, array_enc 2 _ (by decide), beq_self_eq_true,
       if_true, intAcc_u32 i rest hi]
-    simpa using hfv
+    simp only [Int.toNat_natCast, hfv]
   · simp only [if_true, List.nil_append, Dec.bind_run, Dec.pure_run, intAcc_u32 i rest hi]
-    simpa using hfv
+    simp only [Int.toNat_natCast, hfv]
 
-/-- the two-element wrapper of an enum is only accepted in definite form: an indefinite-length
-    wrapper (`9f idx body ff`) is rejected with a message error (the code as it is; the
-    documentation writes `array(2)`). -/
-theorem derive_enum_indefinite_wrapper_rejected (a : EAttr) (vars : Variants) (rest : Bytes) (htag : a.tag = none)
-    (hix : a.indexOnly = false) : deriveDecode (.enum a vars) (0x9f :: rest) = .err .message rest := by
-  simp [deriveDecode, decTy, enumDec, htag, tagCheck, hix, Dec.bind_run, Dec.array, Dec.container, Dec.majorOf, Dec.infoOf]
+/-- the two-element wrapper of an enum must have exactly two elements: a definite array of another
+    length is rejected with a message error (an indefinite-length wrapper is accepted since the
+    repair of K8: `derive_decode_reframed`, `derive_decode_reframed_K8_repaired`). -/
+theorem derive_enum_wrong_wrapper_length (a : EAttr) (vars : Variants) (n : Nat) (rest : Bytes) (htag : a.tag = none)
+    (hix : a.indexOnly = false) (hn : n < 24) (h2 : n ≠ 2) :
+    deriveDecode (.enum a vars) (Enc.array n ++ rest) = .err .message rest := by
+  have hne : (n == 2) = false := by simpa using h2
+  simp only [deriveDecode, decTy, enumDec, htag, tagCheck, hix, Bool.false_eq_true, if_false, Dec.bind_run, Dec.pure_run,
+    array_enc n rest (by omega), hne]
   rfl
 
 /-! ### re-framed input (indefinite-length containers, non-preferred heads)
 
 The property also quantifies over re-framings of the encoding.  Stated on wire trees (Wire.lean):
 any valid tree `w` whose data-model value is the documented value and which does not chunk its
-strings (the `String` / byte-string decoders reject chunked strings by design).  On the code as
-it is the statement is false (K8): the generated enum decoder insists on a *definite* two-element
-wrapper.  Proved parts: `derive_decode_reframed_partial` (the preferred framing, i.e.
+strings (the `String` / byte-string decoders reject chunked strings by design).  Before the repair
+of K8 the statement was false (the generated enum decoder insisted on a *definite* two-element
+wrapper; the former counterexample is now the positive obligation `derive_decode_reframed_K8_repaired`).
+Proved parts: `derive_decode_reframed_partial` (the preferred framing, i.e.
 `derive_roundtrip` read through C08) and `derive_decode_indefinite_struct` (the struct's own
 array / map container in indefinite-length form, both encodings, with fuel adequacy of the
 model's loops); the remaining framings (indefinite nested / variant / `Vec` containers, widened
@@ -610,7 +614,10 @@ example : deriveDecode C08.exStruct ([0xc9] ++ (indefBody .array
       [.some (.int 7), .text [0x61], .int 0, .bool true] ++ [0x01]))
     = .ok (.struct [.some (.int 7), .text [0x61], .int 0, .bool false]) [0x01] := by rfl
 
-/-- the full-strength statement (false on the code as it is: K8). -/
+/-- the full-strength statement.  With `reframes` in place of the two value-level hypotheses it is the
+    theorem `derive_decode_reframed_partial2` below; `reframes_sound` shows that `reframes` implies
+    them, the converse (every valid tree with the documented value and unchunked strings is in
+    `reframes`) is not proved. -/
 def derive_decode_reframed_statement : Prop :=
   ∀ (t : FTy) (v : Derive.Val) (w : WItem) (rest : Bytes), accepted t = true → hasTy t v = true → noClash t v = true →
     w.Valid → value w = specTy t v → noChunks w = true →
@@ -627,27 +634,21 @@ theorem derive_decode_reframed_partial (t : FTy) (v : Derive.Val) (rest : Bytes)
 def k8Type : FTy := .enum {} [({ idx := 0, shape := .unit }, [])]
 def k8Wire : WItem := .arrayI [.uint .w0 0, .array .w0 []]
 
-/-- K8: `enum E { #[n(0)] A }`; the valid re-framing `9f 00 80 ff` of `82 00 80` has the same
-    data-model value but is rejected with a message error. -/
-theorem derive_decode_reframed_counterexample_K8 :
+/-- the former K8 witness: `enum E { #[n(0)] A }`; the valid re-framing `9f 00 80 ff` of `82 00 80`
+    has the same data-model value; it was rejected with a message error, and decodes since the repair. -/
+theorem derive_decode_reframed_K8_repaired :
     accepted k8Type = true ∧ hasTy k8Type (.enum 0 []) = true ∧ noClash k8Type (.enum 0 []) = true ∧
     k8Wire.valid = true ∧ noChunks k8Wire = true ∧ encW k8Wire = [0x9f, 0x00, 0x80, 0xff] ∧
-    deriveDecode k8Type (encW k8Wire) = .err .message [0x00, 0x80, 0xff] := by
-  refine ⟨by rfl, by rfl, by rfl, by rfl, by rfl, by rfl, by rfl⟩
-
-theorem derive_decode_reframed_statement_false : ¬ derive_decode_reframed_statement := by
-  intro h
-  have := h k8Type (.enum 0 []) k8Wire [] (by rfl) (by rfl) (by rfl) (by rfl) (by rfl) (by rfl)
-  have e : deriveDecode k8Type (encW k8Wire ++ []) = .err .message [0x00, 0x80, 0xff] := by rfl
-  rw [e] at this
-  cases this
+    reframes k8Type (.enum 0 []) k8Wire = true ∧
+    deriveDecode k8Type (encW k8Wire ++ [7]) = .ok (.enum 0 []) [7] := by
+  refine ⟨by rfl, by rfl, by rfl, by rfl, by rfl, by rfl, by rfl, by rfl⟩
 
 /-! ### re-framed input, general theorem
 
 `reframes t v w` (Reframe.lean, executable): the valid wire tree `w` carries the derived encoding
 of `v : t` with every head at ANY width and every struct body, variant body and `Vec` in a
-definite or indefinite-length container, at every nesting depth; strings stay definite and the
-enum wrapper `[index, body]` stays a definite array (K8).  `derive_decode_reframed`: the
+definite or indefinite-length container, at every nesting depth, the enum wrapper `[index, body]`
+included (since the repair of K8); strings stay definite.  `derive_decode_reframed`: the
 generated decoder returns the value (skipped fields defaulted) and stops exactly at the end. -/
 
 mutual
@@ -1155,7 +1156,7 @@ theorem reframed_examples :
     reframes C08.exStruct (.struct [.some (.int 7), .text [0x61], .int 0, .bool true]) exReframedStruct = true ∧
     exReframedEnum.valid = true ∧
     reframes C08.exEnum (.enum 1 [.some (.struct [.none, .text [], .int 5, .bool false])]) exReframedEnum = true ∧
-    reframes k8Type (.enum 0 []) k8Wire = false ∧
+    reframes k8Type (.enum 0 []) k8Wire = true ∧
     reframes k8Type (.enum 0 []) (.array .w1 [.uint .w2 0, .arrayI []]) = true := by
   refine ⟨by decide, by decide, by decide, by decide, by decide, by decide⟩
 
@@ -1163,6 +1164,9 @@ example : deriveDecode C08.exStruct (encW exReframedStruct ++ [1])
     = .ok (.struct [.some (.int 7), .text [0x61], .int 0, .bool false]) [1] :=
   derive_decode_reframed C08.exStruct (.struct [.some (.int 7), .text [0x61], .int 0, .bool true]) exReframedStruct [1]
     (by rfl) (by rfl) (by decide) (by decide)
+
+example : deriveDecode k8Type (encW k8Wire ++ [1]) = .ok (.enum 0 []) [1] :=
+  derive_decode_reframed k8Type (.enum 0 []) k8Wire [1] (by rfl) (by rfl) (by decide) (by decide)
 
 example : deriveDecode k8Type (encW (.array .w1 [.uint .w2 0, .arrayI []]) ++ [1]) = .ok (.enum 0 []) [1] :=
   derive_decode_reframed k8Type (.enum 0 []) (.array .w1 [.uint .w2 0, .arrayI []]) [1] (by rfl) (by rfl) (by decide) (by decide)
